@@ -216,7 +216,7 @@ function shapes(depth) {
   return out
 }
 
-const NUMBER_LITERALS = ['1e+3', '1E3', '1.5E-2', '0', '7', '010', '017', '089', '0x1F', '0xfF', '1e3', '1e-3', '.5', '5.', '5.5', '1.2e-1', '0e12', '00', '9007199254740993', '9223372036854775807', '9223372036854775808', '18446744073709551616', '0xFFFFFFFFFFFFFFFFF', '0x7fffffffffffffff', '0x8000000000000000', '0777777777777777777777', '01000000000000000000000', '0x39ad9b1e137c4d3c66', '0xe1c58fccd800d4780', '063504125414533731572450', '1e21', '1e308', '1e309', '1e999', '123456789012345678901234567890']
+const NUMBER_LITERALS = ['1e+3', '1E3', '1.5E-2', '0E0', '0E5', '0e-3', '0.5E1', '0', '7', '010', '017', '089', '0x1F', '0xfF', '1e3', '1e-3', '.5', '5.', '5.5', '1.2e-1', '0e12', '00', '9007199254740993', '9223372036854775807', '9223372036854775808', '18446744073709551616', '0xFFFFFFFFFFFFFFFFF', '0x7fffffffffffffff', '0x8000000000000000', '0777777777777777777777', '01000000000000000000000', '0x39ad9b1e137c4d3c66', '0xe1c58fccd800d4780', '063504125414533731572450', '1e21', '1e308', '1e309', '1e999', '123456789012345678901234567890']
 const STRING_LITERALS = ["''", "'a'", "'\\n'", "'\\r'", "'\\t'", "'\\b'", "'\\f'", "'\\v'", "'\\0'", "'\\x41'", "'\\u0041'", "'\\''", "'\\\\'", "'\\\\0'", "'\\\\01\\\\\\\\0'", "'\\08'", "'\\q'", "'a\\\nb'", "'a\\\r\nb'", "'a\\\rb'", "'a\\\u2028b\\\u2029'", "'\\u00e9\\ud83d\\ude00'", "'é😀'", "'a b'", "'</a>'", "'}}'", "'{{'"]
 const DQ_STRING_LITERALS = ['""', '"a"', '"\\""', '"\'"', '"\\n"', '"\\x41"']
 const KEYWORD_LITERALS = ['true', 'false', 'null', 'undefined']
